@@ -235,45 +235,76 @@ def run(ctx: Ctx) -> None:
     aj = assn.methods.get("join")
     if aj is None:
         raise AnalysisError("AssignmentAnalysis.join vanished")
-    defs: dict[str, tuple[str, int]] = {}
-    for n in walk_no_nested(aj.node):
-        if isinstance(n, ast.Assign) and isinstance(n.targets[0], ast.Name) and isinstance(n.value, ast.Call):
-            op = dotted(n.value.func)
-            if op in ("set.intersection", "set.union") and n.value.args and isinstance(n.value.args[0], ast.Starred):
-                g = n.value.args[0].value
-                if isinstance(g, (ast.GeneratorExp, ast.ListComp)) and isinstance(g.generators[0].target, ast.Tuple):
-                    names = [dotted(t) for t in g.generators[0].target.elts]
-                    if dotted(g.elt) in names and dotted(g.generators[0].iter) == "ts":
-                        defs[n.targets[0].id] = (op.split(".")[1], names.index(dotted(g.elt)))
-    final = [r.value for r in walk_no_nested(aj.node) if isinstance(r, ast.Return)][-1:]
+    import itertools as _it
     key = f"{aj.qualname}#meet-and-join"
-    if not final or not isinstance(final[0], ast.Tuple) or not all(dotted(e) in defs for e in final[0].elts):
-        ctx.undecided("R-C09.3", key, aj.where, "join not in the `set.intersection/union(*(c for a, b in ts))` shape")
+    subsets = [set(), {"a"}, {"b"}, {"a", "b"}]
+    pairs = [(d, m) for d in subsets for m in subsets if d <= m]
+    ev = PyEval(idx, AN)
+    selfa = Tok("self", ass_before_entry={"e"}, maybe_ass_before_entry={"e", "m"}, all_vars={"a", "b", "e", "m"}, __ident__=1)
+    ps = [x.arg for x in aj.node.args.args]
+    va = aj.node.args.vararg.arg if aj.node.args.vararg else None
+    bad, und, n_cases = [], None, 0
+    if va is None:
+        und = "join takes no *args"
     else:
-        got = [defs[dotted(e)] for e in final[0].elts]
-        ctx.check(got == [("intersection", 0), ("union", 1)], "R-C09.3", key, aj.where, {"components": got},
+        for n in (1, 2, 3):
+            for ts in _it.product(pairs, repeat=n):
+                if n == 3 and ts[0] != pairs[1]:
+                    continue  # keep the 3-ary cases to a slice
+                n_cases += 1
+                try:
+                    out = ev.run_function(aj, {ps[0]: selfa, va: [(set(d), set(m)) for d, m in ts]})
+                except Unsupported as e:
+                    und = str(e)
+                    break
+                want = (set.intersection(*[d for d, _ in ts]), set.union(*[m for _, m in ts]))
+                got = out[1] if out[0] == "return" else out
+                if not (isinstance(got, (tuple, list)) and len(got) == 2 and set(got[0]) == want[0] and set(got[1]) == want[1]):
+                    bad.append({"incoming": [[sorted(d), sorted(m)] for d, m in ts], "join": repr(got), "want": [sorted(want[0]), sorted(want[1])]})
+            if und:
+                break
+    if und:
+        ctx.undecided("R-C09.3", key, aj.where, und)
+    else:
+        ctx.check(not bad, "R-C09.3", key, aj.where, {"cases": n_cases, "counterexamples": bad[:3]},
                   "definite assignment must intersect and maybe-assignment must unite over incoming paths (and each must combine its own component)")
-    empty = [n for n in walk_no_nested(aj.node) if isinstance(n, ast.If) and "len(ts)" in ast.unparse(n.test)]
-    ok = False
-    facts = {}
-    for n in empty:
-        for r in n.body:
-            if isinstance(r, ast.Return) and isinstance(r.value, ast.Tuple) and len(r.value.elts) == 2:
-                a, b = (ast.unparse(x) for x in r.value.elts)
-                facts = {"empty_join": [a, b]}
-                ok = a == "self.ass_before_entry" and b in ("self.ass_before_entry", "self.maybe_ass_before_entry")
-    ctx.check(ok, "R-C09.3", f"{aj.qualname}#empty-join-is-entry-value", aj.where, facts,
-              "a block without predecessors (the entry) must start from the variables assigned before entry")
+    try:
+        out = ev.run_function(aj, {ps[0]: selfa, va: []}) if va else ("?", None)
+        got = out[1] if out[0] == "return" else None
+        ok = isinstance(got, (tuple, list)) and len(got) == 2 and set(got[0]) == {"e"} and set(got[1]) in ({"e"}, {"e", "m"})
+        ctx.check(ok, "R-C09.3", f"{aj.qualname}#empty-join-is-entry-value", aj.where, {"empty_join": repr(got)},
+                  "a block without predecessors (the entry) must start from the variables assigned before entry")
+    except Unsupported as e:
+        ctx.undecided("R-C09.3", f"{aj.qualname}#empty-join-is-entry-value", aj.where, str(e))
     lj = live.methods.get("join")
     if lj is None:
         raise AnalysisError("LivenessAnalysis.join vanished")
-    loop = next((n for n in walk_no_nested(lj.node) if isinstance(n, ast.For) and dotted(n.iter) == "ts"), None)
-    union = loop is not None and any(isinstance(s, ast.AugAssign) and isinstance(s.op, ast.BitOr) and dotted(s.value) == dotted(loop.target) for s in loop.body)
-    starts_empty = any(isinstance(n, (ast.Assign, ast.AnnAssign)) and isinstance(n.value, ast.Dict) and not n.value.keys for n in walk_no_nested(lj.node))
-    if loop is None:
-        ctx.undecided("R-C09.3", f"{lj.qualname}#union", lj.where, "not the `for t in ts: res |= t` shape")
+    ps = [x.arg for x in lj.node.args.args]
+    va = lj.node.args.vararg.arg if lj.node.args.vararg else None
+    doms = [{}, {"a": "bb1"}, {"b": "bb2"}, {"a": "bb3", "b": "bb3"}]
+    bad, und, n_cases = [], None, 0
+    if va is None:
+        und = "join takes no *args"
     else:
-        ctx.check(union and starts_empty, "R-C09.3", f"{lj.qualname}#union", lj.where, {"accumulates_with_or": union, "starts_empty": starts_empty},
+        for n in (0, 1, 2, 3):
+            for ts in _it.product(doms, repeat=n):
+                n_cases += 1
+                try:
+                    out = ev.run_function(lj, {ps[0]: Tok("self", __ident__=1), va: [dict(t) for t in ts]})
+                except Unsupported as e:
+                    und = str(e)
+                    break
+                got = out[1] if out[0] == "return" else None
+                want = set().union(*[set(t) for t in ts]) if ts else set()
+                # keys = union; each value is a block in which some input says the variable is used
+                if not (isinstance(got, dict) and set(got) == want and all(any(t.get(k) == v for t in ts) for k, v in got.items())):
+                    bad.append({"incoming": [dict(t) for t in ts], "join": repr(got), "want_keys": sorted(want)})
+            if und:
+                break
+    if und:
+        ctx.undecided("R-C09.3", f"{lj.qualname}#union", lj.where, und)
+    else:
+        ctx.check(not bad, "R-C09.3", f"{lj.qualname}#union", lj.where, {"cases": n_cases, "counterexamples": bad[:3]},
                   "liveness must unite over successors")
     le = live.methods.get("eq")
     if le is None:
